@@ -21,6 +21,8 @@ def make_result(eng, st, name, decl, env):
             return eng.fresh(name, decl)
         if decl == "none":
             return None
+    if isinstance(decl, tuple) and decl[0] == "param":
+        return eng.lookup(st, env, decl[1])  # the call returns (an alias of) its own argument
     if isinstance(decl, tuple) and decl[0] == "tuple":
         return tuple(make_result(eng, st, f"{name}.{i}", d, env) for i, d in enumerate(decl[1:]))
     if isinstance(decl, tuple) and decl[0] == "arr":
@@ -41,6 +43,7 @@ def call_by_contract(eng, st, key, fn, args, kwargs, line):
     fid = eng.new_frame(st, parent=None, module=fn.module if fn.module is not None else eng.module(unit.module))
     eng.bind_params(st, fn, args, kwargs, fid)
     saved_genv = getattr(eng, "ghost_env", None)
+    eng.ghost_env_outer = saved_genv if saved_genv is not None else {}
     genv = {}
     eng.ghost_env = genv
     saved_gd = getattr(eng, "ghost_defs", None)
@@ -65,7 +68,7 @@ def call_by_contract(eng, st, key, fn, args, kwargs, line):
                 obj = st.heap[ref.loc]
                 if isinstance(obj, ArrV):
                     eng.frame_write(st, ref, f"call:{cname}@{line}")
-                    na = eng.fresh_array(f"{m}'", obj.shape, obj.dtype)
+                    na = eng.fresh_array(f"{m}_new", obj.shape, obj.dtype)
                     na.bufs = obj.bufs
                     st.heap[ref.loc] = na
                 else:
@@ -88,7 +91,9 @@ def call_by_contract(eng, st, key, fn, args, kwargs, line):
         res = unit.returns(eng, st, fid) if callable(unit.returns) and getattr(unit.returns, "_ctx", False) else make_result(eng, st, f"{cname}.ret", unit.returns, fid)
         extra = {"result": res}
         extra.update(olds)
-        for label, text in unit.ensures:
+        ens = unit.opts.get("call_ensures")
+        ens = list(ens.items()) if ens else [(l, t) for l, t in unit.ensures if not l.startswith("lemma.")]
+        for label, text in ens:
             v = eval_text(eng, st, fid, text, extra)
             st.assume(eng.truthy(st, v))
         if unit.call_post:
